@@ -967,11 +967,13 @@ func (e *env) runHTTP(c *c10Case) (httpObs, string) {
 		}}
 		rt := &httpcache.RoundTripper{Transport: stub, DefaultCacheTTL: time.Duration(c.Dflt)}
 
+		// the bracket starts before the oracle call: an Expires header without a Date header is an absolute
+		// instant, so its lifetime shrinks between the oracle's clock reading and the one inside cacheResponse
+		t0 := time.Now()
+
 		cachable, life := oracle(c.Resp.request(ctx, 1), c.Resp.Status, hdr)
 
 		rec.begin(0)
-
-		t0 := time.Now()
 
 		resp, err := rt.RoundTrip(c.Resp.request(ctx, 1))
 		if err != nil {
